@@ -517,6 +517,31 @@ def r17_8(ctx):
         n += 1
         if not bounded:
             open_ended.append(f"{name}={word!r}")
+    # ... and nothing but a word character keeps a keyword from matching: `return(x);`, `if(c)`, `sizeof(x)`, `else{`, `break;` are
+    # the keyword followed by a token of its own (evaluated on the terminal patterns, whatever look-ahead they spell)
+    refused = []
+    special = {"INTEGER": "int", "BOOL": "_Bool"}
+    for name, t in sorted(gm.terminals.items()):
+        word, bounded = keyword_literal(t)
+        if word is None:
+            # a pattern of a shape the model does not read: the terminal's NAME still says which keyword it is
+            word = special.get(name, name.lower())
+        if word not in O.C11_KEYWORDS or t["kind"] != "re":
+            continue
+        try:
+            rx_ = re.compile(t["value"])
+        except re.error:
+            continue
+        if rx_.match(word + " ") is None and rx_.match(word) is None:
+            continue  # not a keyword terminal after all
+        m = rx_.match(word + "x1")
+        if m is not None and m.end() >= len(word):
+            refused.append(f"{name} matches the beginning of {word + 'x1'!r}")
+        for follower in (" ", ";", "(", ")", "{", "}", "*", "-", "\n", "\t", "", "+", "!", "~", "&", ","):
+            m = rx_.match(word + follower)
+            if m is None or m.end() != len(word):
+                refused.append(f"{name} does not match in {word + follower!r}")
+    ctx.check("a keyword is recognised in front of every non-word character", not refused, "the keyword matches before ( ; ) { * blank, end of text ...", "; ".join(refused[:4]) or "ok", gm.where("IDENTIFIER"))
     ctx.need(n >= 30, f"only {n} C keyword terminals found")
     ctx.check("keyword terminals end at a word boundary", not open_ended, "every keyword is a regex `word(?!\\w)` (or `word\\b`)",
               f"{len(open_ended)} plain string keywords, e.g. {open_ended[:6]}: an identifier that starts with one of them is split (`intermediate = 1` parses as `int ermediate = 1`, `elsewhere = 2` after an if as its else branch)",
